@@ -120,7 +120,10 @@ func e2eRunHeld(scn e2eScn, lim e2eLimits) (row e2eRow) {
 		row.Trailing = append(row.Trailing, table[i].trailingStr())
 		row.Arity = append(row.Arity, len(table[i].handlerKinds()))
 	}
-	row.Twice = -1
+	row.Regs = map[string][]int{}
+	for _, ni := range scn.Names {
+		row.Regs[strconv.Itoa(ni)] = []int{0}
+	}
 	// Since fix 63b366a the client pauses polling before the swap: no delivery of the old transport
 	// can be in flight while the websocket delivers, whatever the websocket carries.
 	row.WsAttInFlight = false
